@@ -80,7 +80,7 @@ def part_lt(it, x, y, last):
     if isinstance(x, Str):
         if x.s is None or y.s is None:
             raise Unsupported('storage order of symbolic strings')
-        a, b = x.s.encode(), y.s.encode()
+        a, b = raw_bytes(x), raw_bytes(y)
         return a < b if last else (len(a), a) < (len(b), b)
     if isinstance(x, Agg) and x.name == 'bytes_of_u64': return x.fields[0] < y.fields[0]      # big-endian bytes order = numeric order
     if isinstance(x, (VecV, Agg)):
@@ -440,9 +440,11 @@ def _deps_as_ref(it, a, c):
 @model('<dyn cosmwasm_std::Api as cosmwasm_std::Api>::addr_validate')
 def _addr_validate(it, a, c): return OK(ADDR(sval(a[1])))
 @model('<dyn cosmwasm_std::Api as cosmwasm_std::Api>::addr_canonicalize')
-def _addr_canon(it, a, c): return OK(Agg(CS + 'CanonicalAddr', [sval(a[1])]))
+def _addr_canon(it, a, c):
+    s = sval(a[1]); return OK(Agg(CS + 'CanonicalAddr', [Str(s.s, s.sym, parts=s.parts, canon=True)]))
 @model('<dyn cosmwasm_std::Api as cosmwasm_std::Api>::addr_humanize')
-def _addr_human(it, a, c): return OK(ADDR(deref(a[1]).fields[0]))
+def _addr_human(it, a, c):
+    s = deref(deref(a[1]).fields[0]); return OK(ADDR(Str(s.s, s.sym, parts=s.parts)))
 @model('<dyn cosmwasm_std::Api as cosmwasm_std::Api>::debug')
 def _api_debug(it, a, c): return UNIT()
 @model('cosmwasm_std::CanonicalAddr::as_slice', '<cosmwasm_std::CanonicalAddr as std::ops::Deref>::deref')
@@ -662,9 +664,9 @@ def _q_query(it, a, c):
     raise Unsupported('query %r' % (req,))
 @model('cosmwasm_std::QuerierWrapper::query_wasm_contract_info')
 def _q_contract_info(it, a, c):
-    h = getattr(it.world, 'contract_info', None)
-    if h is None: raise Unsupported('contract info query')
-    return h(it, to_string(it, a[1]))
+    ci = getattr(it.world, 'cinfo', None)       # dict(code_id, creator, admin | None): the answer for every address
+    if ci is None: raise Unsupported('contract info query')
+    return OK(Agg('cosmwasm_std::ContractInfoResponse', [ci['code_id'], Str(ci['creator']), SOME(Str(ci['admin'])) if ci.get('admin') else NONE(), False, NONE()]))
 
 
 def _hook_admin_ok(it, a):
@@ -693,3 +695,32 @@ def _exec_remove_hook(it, a, c):
     for k, v in (('action', Str('remove_hook')), ('hook', to_string(it, a[4])), ('sender', to_string(it, deref(a[3]).fields[0]))):
         resp.fields[1].items.append(Agg(CS + 'Attribute', [Str(k), v]))
     return OK(resp)
+
+
+def _protobuf_parse(it, a, c):
+    """<T as protobuf::Message>::parse_from_bytes for the MsgInstantiateContractResponse structs the factories define."""
+    m = re.match(r'^<(.+) as protobuf::Message>::parse_from_bytes$', c.inst)
+    ty = norm(m.group(1)) if m else ''
+    b = deref(a[0])
+    p = b.fields[0] if isinstance(b, Agg) and b.name == CS + 'Binary' else b
+    if not (isinstance(p, Opaque) and p.tag == 'instantiate_data'): return ERR(Opaque('protobuf::Error'))
+    addr, data = p.payload if isinstance(p.payload, tuple) else (p.payload, None)
+    fs = it.fields_of(ty)
+    if fs is None: raise Unsupported('protobuf message type ' + ty)
+    vals = []
+    for fname, fty in fs:
+        if fname in ('address', 'contract_address'): vals.append(addr)
+        elif fname == 'data': vals.append(Opaque('json', data) if data is not None else VecV([]))
+        else: vals.append(Agg(norm(fty), []))
+    return OK(Agg(ty, vals))
+DEF_MODELS['protobuf::Message::parse_from_bytes'] = _protobuf_parse
+
+
+def instantiate_reply(rid, addr, data=None):
+    """Reply carrying the protobuf MsgInstantiateContractResponse {address, data} of a successful instantiate submessage."""
+    payload = Agg(CS + 'Binary', [Opaque('instantiate_data', (S(addr), data))])
+    return Agg(CS + 'Reply', [rid, Enum(CS + 'SubMsgResult', 'Ok', [Agg(CS + 'SubMsgResponse', [VecV([]), SOME(payload)])])])
+
+
+@model('std::vec::Vec::as_slice')
+def _vec_as_slice(it, a, c): return a[0]
